@@ -31,7 +31,7 @@ ASSUMPTIONS = ['float weights only (JSON has no bool/int tensor type)', 'sum-pro
 
 def plan(prop, tier):
     if tier == 'quick':
-        return {'runs': 3000, 'cap': 30.0, 'det_runs': 40, 'legs': [{'hashseed': h} for h in (0, 1, 2, 3)]}
+        return {'runs': 3000, 'cap': 120.0, 'det_runs': 40, 'legs': [{'hashseed': h} for h in (0, 1, 2, 3)]}
     return {'cap': 240.0, 'budget_s': 900, 'legs': [{'hashseed': h} for h in (0, 1, 2, 3)]}
 
 
@@ -50,6 +50,7 @@ def generate(prop, seed, tier):
             t['weights'] = dense.tolist()
     pres = build.random_presentation(spec, g, allow_rename=False, allow_domperm=False, via=('api',))
     pres['ids'] = 'spec'
+    pres['late_start'] = len(spec['nts']) >= 2 and g.random() < 0.4
     corrupt = None
     if g.random() < 0.45:
         corrupt = {'rule': g.randrange(64), 'where': g.choice(['att', 'att', 'ext']), 'edge': g.randrange(64), 'pos': g.randrange(64),
@@ -57,14 +58,14 @@ def generate(prop, seed, tier):
     wspecs = []
     for _ in range(g.randrange(0, 4)):
         shape = [g.randrange(1, 5) for _ in range(g.randrange(0, 4))]
-        wspecs.append(P.gen_pattern(g, shape, values=g.choice(['real', 'any', 'log']),
+        wspecs.append(P.gen_pattern(g, shape, values=g.choice(['real', 'any', 'log', 'intlit']),
                                     default_menu=(0.0, 0.0, 1.0, float('inf'), float('-inf'), -2.5), dense_p=0.1))
     return {'engine': 'wire', 'prop': prop, 'seed': seed, 'spec': spec, 'pres': pres, 'interp': g.random() < 0.75,
             'writer': {'alloc': {'mode': g.choice(['order', 'reuse', 'seq']), 'seed': seed * 2 + 1}, 'dtype': g.choice(['float64', 'float64', 'float32'])},
             'reader': {'alloc': {'mode': g.choice(['order', 'seq']), 'seed': seed * 2 + 2}},
             'corrupt': corrupt, 'wspecs': wspecs,
             # a real second interpreter as the reader (real addresses as ids, another PYTHONHASHSEED)
-            'reader_proc': {'hashseed': g.randrange(1, 1000)} if g.random() < (0.02 if tier == 'quick' else 0.04) else None}
+            'reader_proc': {'hashseed': g.randrange(1, 1000)} if g.random() < (0.01 if tier == 'quick' else 0.04) else None}
 
 
 def reducers(case):
@@ -258,8 +259,9 @@ def execute(case):
                 text2 = json.dumps(F.fgg_to_json(g2) if interp else F.hrg_to_json(g2))
                 if all_explicit:
                     wenv.c.inc('probe.all-explicit-verbatim')
-                    if text2 != text:
-                        V('verbatim', ['all-explicit'], f'second round trip changed the JSON text:\n{text}\n{text2}')
+                    # JSON objects are unordered: compare the documents as objects (lists keep their order)
+                    if json.loads(text2) != json.loads(text):
+                        V('verbatim', ['all-explicit'], f'second round trip changed the JSON document:\n{text}\n{text2}')
                 else:
                     g3 = (F.json_to_fgg if interp else F.json_to_hrg)(json.loads(text2))
                     compare_grammars(g1, g3, interp, wenv.c)
